@@ -14,15 +14,26 @@ import random
 
 PID = 'C20'
 HARNESS = 'h_c20'
+# second translation unit of the harness: its own unnamed-namespace types Setting / Triple / Record, spelled like the first unit's
+HARNESS_EXTRA = ('h_c20_b.h', 'h_c20_b.cpp')
 MODEL_MODULE = 'V.C20.Model'
-NTY = 18
+NTY = 24
 INSTR = tuple(range(0, 6)) + (11, 12, 13)
 # sizeof of the harness's payload types (static_asserts in harness/h_c20.cpp; coq/C20/Model.v size_of): 11..15 lie between one and two words
-SIZE_OF = {0: 1, 1: 4, 2: 8, 3: 16, 4: 40, 5: 32, 6: 1, 7: 4, 8: 8, 9: 32, 10: 24, 11: 9, 12: 12, 13: 15, 14: 12, 15: 9, 16: 16, 17: 8}
+SIZE_OF = {0: 1, 1: 4, 2: 8, 3: 16, 4: 40, 5: 32, 6: 1, 7: 4, 8: 8, 9: 32, 10: 24, 11: 9, 12: 12, 13: 15, 14: 12, 15: 9, 16: 16, 17: 8,
+           18: 8, 19: 12, 20: 40, 21: 8, 22: 12, 23: 40}
 WORD = 8
 ODD_TYPES = (11, 12, 13, 14, 15)          # one word < sizeof < two words
-INPLACE_TYPES = (0, 1, 2, 6, 7, 8, 17)
-HEAP_TYPES = (3, 4, 5, 9, 10, 11, 12, 13, 14, 15, 16)
+INPLACE_TYPES = (0, 1, 2, 6, 7, 8, 17, 18, 21)
+HEAP_TYPES = (3, 4, 5, 9, 10, 11, 12, 13, 14, 15, 16, 19, 20, 22, 23)
+# 18..20 = Setting (8, in place) / Triple (12) / Record (40, non-trivial) of the harness's first translation unit (unnamed namespace),
+# 21..23 = the types of the SAME SPELLING in the second unit's unnamed namespace: distinct types, equal std::type_info::name() strings.
+# For the property they are just six different types: typed access with any type other than the stored one is a type error.
+TWIN = {18: 21, 19: 22, 20: 23, 21: 18, 22: 19, 23: 20}
+TWIN_TYPES = tuple(sorted(TWIN))
+# integrity codes of the harness (last integer of every state dump)
+ERR_SIG = {1: 'once:object-used-or-destroyed-after-destruction', 3: 'typed:stored-value-bytes-changed',
+           4: 'typed:access-with-another-type-accepted', 5: 'typed:checked-access-forms-disagree'}
 NPROC = 6
 VARIANTS = {('p%d' % i): {} for i in range(NPROC)}   # same binary, several processes (LeakSanitizer checks are slow)
 # leaks are judged per case through __lsan_do_recoverable_leak_check (last integer of the observation), not at process exit
@@ -33,10 +44,18 @@ RULE = ('cases = operation histories; part A over H<=4 holders, one ValueMap wit
         'h = value_cast<T>(h), h = value_cast<Record>(h).member, h = value_cast<vector<int>>(h)[0]), assign holder (incl. self), swap (incl. in-place<->heap, self), clear, '
         'client new/delete, assimilate, surrender (+reuse), write through value_cast, value_cast to every type, ValueMap::add '
         '(new / other pointer / the pointer already held), ValueMap::clear, operator[], NotifiedValue::parse (accepting / rejecting parser, first and '
-        'repeated), over 18 payload types (sizeof 1,4,8 in place; 16, string-like, vector-like on the heap; bool,int,const void*,std::string,std::vector<int>; '
+        'repeated), over 24 payload types (sizeof 1,4,8 in place; 16, string-like, vector-like on the heap; bool,int,const void*,std::string,std::vector<int>; '
         'sizes BETWEEN one and two words: instrumented 9, 12, 15 bytes, a plain struct of three ints (12) and of nine chars (9), plain controls of 16 and 8 bytes - every byte of these '
         'values is significant and checked at every read, every holder is an exactly-sized heap block so that ASan sees a write / read past its single word; '
-        'fixed odd-size histories + stream A-random-odd-size + all type pairs); '
+        'fixed odd-size histories + stream A-random-odd-size + all type pairs; '
+        'SAME NAME, OTHER TYPE: tags 18..20 = Setting (8 bytes, in place) / Triple (12) / Record (40, non-trivial) declared in the unnamed namespace of the harness\'s first translation unit, '
+        'tags 21..23 = the types of exactly the same spelling in the unnamed namespace of its SECOND translation unit (harness/h_c20_b.cpp, other layouts and encodings): distinct types whose '
+        'std::type_info::name() strings are equal (self-test at harness start, printed on stderr; the harness aborts if that is not so). Every op works on them (the second unit\'s types through plain functions of '
+        'h_c20_b.h); a typed read through the other unit\'s type of the same name must be refused like any other wrong type: judged at op cast / map_get (typed:cast-result-differs, '
+        'typed:map-lookup-differs), and after EVERY operation each holder / map entry that holds one of the six types is probed through its namesake with the whole value_cast family '
+        '(an accepted access = integrity 4 = typed:access-with-another-type-accepted, the object is never read through the wrong type; contradicting forms = typed:checked-access-forms-disagree); '
+        '24 fixed same-name histories (value arriving by typed construction / assignment, copy, holder assignment, swap, adoption, surrender + re-adoption, ValueMap::add, NotifiedValue::parse, copy out of the map; '
+        'typed assignment over the namesake with the same value) + stream A-random-same-name-types (4 %) + 35 % of the typed reads of the other streams aimed at the namesake when there is one); '
         'part B over S<=4 SharedOptPtr variables and C<=6 containers (OptionGroup, ParsedValues, OptionContext); 7 of 8 additions to a ParsedValues container take the handle from a REAL '
         'parse (parseCommandArray / parseCommandString over a context container of the case or a temporary context, result object kept) surrounded by command lines that must leave no '
         'handle behind: --no-<name> for negatable and non-negatable options, unknown names, prefixes, strict and with unregistered options allowed (stream B-parse-holder + fixed histories). '
@@ -48,6 +67,7 @@ RULE = ('cases = operation histories; part A over H<=4 holders, one ValueMap wit
         'non-trivial = a copy/assign/swap/adopt/surrender/map-add acted on a non-empty holder or a typed assignment came from inside the holder\'s own value (A) or an option was shared by >= 2 holders (B); '
         'distinct = distinct case tuples')
 TRUSTED_BASE = ['harness/h_c20.cpp instrumented payload types (identity = id stored in the object, value kept in a registry)',
+                'harness/h_c20_b.cpp (second translation unit: internal-linkage types spelled like the first unit\'s; g++/libstdc++ give them equal type_info names and distinct type_info objects - self-tested at start)',
                 'props/C20.py abstract-value replay and shadow ownership ledger (oracle on the implementation)',
                 'operator new/delete, std::map, std::vector, std::string modelled as ideal containers',
                 'tools/consts/C20.py (in-place rule parsed as an expression over sizeof(T) / sizeof(void*) into in_place(size, word) - size_t subtraction exact, + and * not wrapped; base_vtable selector, vtable tags, RefCountable initial count; declared integer type of RefCountable::refCount_ and return types of '
@@ -243,6 +263,7 @@ class RefA:
             if self.okh(i):
                 x = self.h[i]
                 res = [1, x[1]] if (x is not None and x[0] == ty) else [0, 0]
+                nt = x is not None and TWIN.get(x[0]) == ty      # read through the other translation unit's type of the same name
         elif k == 13:
             _, n, kk = o
             if self.okm(n) and 0 <= kk < len(self.cl):
@@ -264,6 +285,7 @@ class RefA:
                 if self.pres[n]:
                     x = self.m[n]
                     res = [1, 1, x[1]] if (x is not None and x[0] == ty) else [1, 0, 0]
+                    nt = x is not None and TWIN.get(x[0]) == ty
                 else:
                     res = [0, 0, 0]
         elif k == 17:
@@ -384,7 +406,7 @@ def oracle_a(d, obs):
             sig.append('harness:short-observation')
             break
         if err != 0:
-            sig.append({1: 'once:object-used-or-destroyed-after-destruction', 3: 'typed:stored-value-bytes-changed'}.get(err, 'harness:id-space-exhausted'))
+            sig.append(ERR_SIG.get(err, 'harness:id-space-exhausted'))
         if len(set(owned)) != len(owned):
             sig.append('once:object-owned-twice')
         if sorted(owned) != live:
@@ -409,7 +431,7 @@ def oracle_a(d, obs):
         dtor, ctor, err, leak = tail
         cl_ids = sorted(x[2] for x in ref.cl if x[0] in INSTR and isinstance(x[2], int))
         if err != 0:
-            sig.append({1: 'once:object-used-or-destroyed-after-destruction', 3: 'typed:stored-value-bytes-changed'}.get(err, 'harness:id-space-exhausted'))
+            sig.append(ERR_SIG.get(err, 'harness:id-space-exhausted'))
         if live != cl_ids:
             sig.append('once:not-destroyed-with-last-holder' if set(live) - set(cl_ids) else 'once:client-object-destroyed')
         if dtor != ctor - len(live):
@@ -595,7 +617,7 @@ def alias_op(ref, rnd, ne):
 def gen_a(rnd, flavour):
     H = rnd.choice([1, 2, 2, 3, 4])
     M = rnd.choice([0, 1, 2, 3]) if flavour != 'nomap' else 0
-    tys = [rnd.randrange(NTY) for _ in range(M)]
+    tys = [rnd.choice(TWIN_TYPES) if flavour == 'twin' and rnd.random() < 0.7 else rnd.randrange(NTY) for _ in range(M)]
     ref = RefA(H, M, tys)
     nops = rnd.randint(3, 30)
     ops = []
@@ -606,6 +628,9 @@ def gen_a(rnd, flavour):
     elif flavour == 'odd':
         # sizes between one and two words (9, 12, 15; instrumented and plain) against the controls of exactly one / two words and an in-place int
         pick_ty = lambda: rnd.choice([11, 12, 12, 13, 14, 14, 15, 2, 8, 17, 3, 16, 7])
+    elif flavour == 'twin':
+        # the two translation units' types of the same spelling against each other (and a few ordinary types)
+        pick_ty = lambda: rnd.choice(TWIN_TYPES + TWIN_TYPES + (7, 9, 2, 12))
     elif flavour == 'alias':
         # every representation; the types with a part that is itself a payload type (PS, PV, vector<int>) more often
         pick_ty = lambda: rnd.choice([0, 1, 2, 3, 4, 4, 5, 5, 6, 7, 7, 8, 9, 9, 10, 10, 10, 11, 12, 13, 14, 15, 16, 17])
@@ -662,8 +687,12 @@ def gen_a(rnd, flavour):
         elif r < 0.79:
             o = (11, rnd.choice(ne) if ne and rnd.random() < 0.85 else hi(), rnd.randrange(1000))
         elif r < 0.86 or M == 0:
-            i = hi()
-            ty = ref.h[i][0] if ref.h[i] is not None and rnd.random() < 0.5 else rnd.randrange(-1, NTY)
+            i = rnd.choice(ne) if ne and flavour == 'twin' else hi()
+            cur = ref.h[i][0] if ref.h[i] is not None else None
+            if cur in TWIN and rnd.random() < (0.6 if flavour == 'twin' else 0.35):
+                ty = TWIN[cur]           # the other unit's type of the same name: must be refused like any other type
+            else:
+                ty = cur if cur is not None and rnd.random() < 0.5 else rnd.randrange(-1, NTY)
             o = (12, i, ty)
         else:
             n = rnd.randrange(M)
@@ -678,7 +707,11 @@ def gen_a(rnd, flavour):
             elif q < 0.5:
                 o = (15,)
             elif q < 0.65:
-                ty = ref.m[n][0] if ref.m[n] is not None and rnd.random() < 0.6 else rnd.randrange(NTY)
+                cur = ref.m[n][0] if ref.m[n] is not None else None
+                if cur in TWIN and rnd.random() < 0.4:
+                    ty = TWIN[cur]
+                else:
+                    ty = cur if cur is not None and rnd.random() < 0.6 else rnd.randrange(NTY)
                 o = (16, n, ty)
             else:
                 o = (17, n, rnd.randrange(1000), 0 if rnd.random() < 0.25 else 1)
@@ -696,11 +729,11 @@ def gen_a(rnd, flavour):
 
 def gen_a_wild(rnd):
     H, M = rnd.randint(0, 3), rnd.randint(0, 3)
-    tys = [rnd.randint(-3, 21) for _ in range(M)]
+    tys = [rnd.randint(-3, 27) for _ in range(M)]
     ops = []
     for _ in range(rnd.randint(1, 25)):
         k = rnd.randint(1, 17)
-        ops.append(tuple([k] + [rnd.choice([-1, 0, 0, 1, 1, 2, 3, 5, 11, 12, 14, 17, 18, 999, 1000, 1001]) for _ in range(ARITY_A[k])]))
+        ops.append(tuple([k] + [rnd.choice([-1, 0, 0, 1, 1, 2, 3, 5, 11, 12, 14, 17, 18, 20, 21, 23, 24, 999, 1000, 1001]) for _ in range(ARITY_A[k])]))
     c = [0, H, M] + tys
     for o in ops:
         c += list(o)
@@ -853,11 +886,31 @@ def odd_fixed():
     return out
 
 
+def twin_fixed():
+    """the two translation units' types of the same spelling (t, u = TWIN[t]; both directions, in place / 12 bytes / heap): a value of
+    type t reaches a holder in every way the case alphabet has - typed construction, typed assignment, copy construction, holder
+    assignment, swap, adoption, surrender + re-adoption, ValueMap::add, NotifiedValue::parse, copy out of the map - and after each of
+    them the holder is read through u (must be refused) and through t (must yield the value); then u is stored over it and read through t"""
+    out = []
+    for t in TWIN_TYPES:
+        u = TWIN[t]
+        v = 40 + 3 * t
+        both = lambda i: [12, i, u, 12, i, t]
+        out.append(([0, 2, 0, 1, 0, t, v] + both(0) + [2, 1, 0] + both(1) + [3, 1, u, v + 1] + both(1) + [5, 0, 1] + both(0) + both(1)
+                    + [4, 0, 1] + both(0) + [4, 0, 0, 5, 1, 1] + both(0) + both(1) + [11, 1, v + 2] + both(1) + [6, 0] + both(0), 'same-name-fixed-store-copy-swap'))
+        out.append(([0, 1, 0, 7, t, v, 9, 0, 0] + both(0) + [10, 0] + both(0) + [9, 0, 0] + both(0) + [7, u, v + 1, 9, 0, 0] + both(0), 'same-name-fixed-adopted'))
+        out.append(([0, 1, 1, t, 17, 0, v, 1, 16, 0, u, 16, 0, t, 4, 0, 1] + both(0) + [7, u, v + 1, 13, 0, 0, 16, 0, t, 16, 0, u, 14, 0, 16, 0, t, 2, 0, 1] + both(0)
+                    + [17, 0, v + 2, 1, 16, 0, u, 16, 0, t, 15], 'same-name-fixed-map'))
+        # typed assignment of T(v) over a holder that holds the OTHER unit's type with the same value (the harness looks for an alias through value_cast<T>)
+        out.append(([0, 1, 0, 3, 0, t, v, 3, 0, u, v] + both(0) + [3, 0, u, v, 3, 0, t, v] + both(0) + [3, 0, t, v] + both(0), 'same-name-fixed-assign-over'))
+    return out
+
+
 def gen(seed, tier):
     rnd = random.Random(seed * 7919 + 20)
     # thorough is 40k, not the 300k of DESIGN.md: every operation dumps the whole state (~1.5k integers per history), which the driver keeps in memory
     total = {'quick': 5000, 'thorough': 40000, 'search': 8000}.get(tier, 5000)
-    out = [(c, {'kind': k}) for c, k in FIXED + alias_fixed() + odd_fixed() + gen_magnitude()]
+    out = [(c, {'kind': k}) for c, k in FIXED + alias_fixed() + odd_fixed() + twin_fixed() + gen_magnitude()]
     # one history per ordered pair of types: store a, store b, swap, copy, self-assign, cast both ways, clear
     for a in range(NTY):
         for b in range(NTY):
@@ -875,6 +928,9 @@ def gen(seed, tier):
             out.append((gen_a(rnd, 'nomap'), {'kind': 'A-random-no-map'}))
         elif r < 0.61:
             out.append((gen_a(rnd, 'odd'), {'kind': 'A-random-odd-size'}))
+        elif r < 0.66:
+            # the two translation units' types of the same spelling: stores / copies / swaps / adoptions of one, typed reads through the other
+            out.append((gen_a(rnd, 'twin'), {'kind': 'A-random-same-name-types'}))
         elif r < 0.74:
             # typed assignment from inside the holder's own current value (whole value or a part of it), every representation
             out.append((gen_a(rnd, 'alias'), {'kind': 'alias-assign'}))
@@ -942,7 +998,9 @@ def shrink(case, fails):
 
 LEVEL_TEXT = ('Machine-checked proofs (Coq) about an executable ownership model of ValueStore/ValueMap::add/NotifiedValue::doParse and of '
               'IntrusiveSharedPtr: for every operation history over any number of holders the model refines plain value semantics '
-              '(type and value of each holder, value_cast results; spelled out for every one of the 18 type tags: typed store then typed read / copy / swap partner return the stored value), '
+              '(type and value of each holder, value_cast results; spelled out for every one of the 24 type tags: typed store then typed read / copy / swap partner return the stored value, every other type is refused - '
+              'in particular the type of the same NAME that another translation unit declares (c20_typed_same_name_other_unit: the model\'s type test is equality of types, and the translator anchors that both checked '
+              'forms of value_cast compare the two std::type_info objects with == and nothing else), '
               'the in-place rule generated from the header selects the in-place table only for objects that fit into the holder\'s word (all sizes), '
               'copies are distinct objects that later operations on the other side do not touch, '
               'the error flag (double destroy / use after destroy) is never raised, live objects = owned objects after every operation and = the client\'s '
